@@ -310,7 +310,13 @@ func main() {
 				sc = o.Repro
 			}
 			sc.Expect = o.Violation
+			// candidates are judged from a cold start, like the fresh process that
+			// will replay the result; a violation that needs the history of this
+			// process is not minimised (it is replayed as a seed sequence)
+			cs := coldStart
+			coldStart = true
 			small, evals := shrink(sc, func(c *Scenario) *Outcome { return safeRun(wd.run, c) }, *shrinkLim)
+			coldStart = cs
 			path := filepath.Join(*replayDir, fmt.Sprintf("%s-%d.json", *prop, seed))
 			writeScenario(path, small)
 			sum.Violations = append(sum.Violations, ViolationReport{Rec: small.Expect, Replay: path, Seed: seed, ShrunkIn: evals, Orig: orig, Seed0: *seed0, Stride: *stride, Tier: *tier})
